@@ -78,7 +78,7 @@ class PeeringScenario(Scenario):
         kopf.on.update('kopfexamples', id='u1', registry=reg)(scripted(env, 'u1', parse_script(['ok'])))
         kopf.daemon('kopfexamples', id='dm', registry=reg)(daemon_fn(env, 'dm', reaction='obeys'))
         settings = make_settings(peering__standalone=False, peering__name='default', peering__priority=PRIORITIES[ident],
-                                 peering__lifetime=LIFETIME, peering__mandatory=True, networking__error_backoffs=())
+                                 peering__lifetime=int(self.params.get('lifetime', LIFETIME)), peering__mandatory=True, networking__error_backoffs=())
         op = Operator(env, opid, reg, settings, identity=ident)
         env.memo['ops'][ident] = op
         env.memo['running'][ident] = opid
@@ -247,6 +247,35 @@ class PeeringScenario(Scenario):
                         if prio >= PRIORITIES[ident] and deadline > max(t0, tw):
                             found.append(key)
                 return found
+            # ... and opens one only when no live peer of higher or equal priority has been showing for the last second
+            def blockers_in_state_at(ident: str, tau: float) -> list[str]:
+                """Live records of higher/equal priority in the LATEST version of the peering object at time tau."""
+                post = None
+                for tw, p2 in timeline:
+                    if tw <= tau:
+                        post = p2
+                found = []
+                for key, r in (((post or {}).get('status') or {}).items()):
+                    if key == ident or not isinstance(r, dict):
+                        continue
+                    try:
+                        seen = (datetime.datetime.fromisoformat(r['lastseen']) - EPOCH).total_seconds()
+                        if int(r.get('priority', 0)) >= PRIORITIES[ident] and seen + int(r.get('lifetime', LIFETIME)) > tau:
+                            found.append(key)
+                    except Exception:
+                        continue
+                return found
+            for st in streams:
+                if st.opid is None:
+                    continue
+                ident = st.opid.split('#')[0]
+                if ident not in PRIORITIES or ends.get(st.opid, float('inf')) <= st.opened_at:
+                    continue
+                both = set(blockers_in_state_at(ident, st.opened_at - 1.0)) & set(blockers_in_state_at(ident, st.opened_at))
+                if both:
+                    out.append(self.viol(env, 'active-despite-live-blocker',
+                                         f"t={st.opened_at}: operator {st.opid} (priority {PRIORITIES[ident]}) opened a watch although the peering object has been "
+                                         f"showing the live record(s) {sorted(both)} of higher or equal priority", clause='paused-while-live-peer'))
             for st in streams:
                 if st.closed_at is None or st.opid is None:
                     continue
@@ -323,6 +352,8 @@ def build(history: list[tuple], spacing: float, jitter: str, **kw: Any) -> Peeri
 def run(tier: str, seed: int) -> CheckResult:
     depth = 2 if tier == 'quick' else 3
     hist = [build(h, sp, j) for h in histories(depth) for sp, j in ((100.0, 'min'), (100.0, 'max'), (20.0, 'min'))]
+    # operators configured with a lifetime other than the documented default of records that do not state theirs (60)
+    hist += [build(h, sp, 'min', lifetime=lt) for h in histories(depth) if any(a[0] == 'ghost' for a in h) for sp in (100.0, 20.0) for lt in (30, 120)]
     reps = [build(h, 100.0, j, timing=True, grid=1.0) for h in ([('start', 'B')], [('start', 'B'), ('kill', 'B')], [('start', 'C')]) for j in ('min', 'max')]
     if tier == 'quick':
         groups = [('histories', hist, 0, 120.0), ('keepalive-latency', reps, 1, 60.0)]
